@@ -19,6 +19,7 @@
      - condition callbacks only read state protected by the mutex;
      - notes are freed by the main thread after every worker finished.  */
 #include "sc.h"
+#include <pthread.h>
 
 #define NV 4
 #define NCV 2
@@ -49,11 +50,12 @@ static struct {
 	struct alias al[RT_MAXT][NV];
 	int nthreads;
 	int debug_on;
+	int churn;
 	int cv_foreign[NCV];   /* this round, waits on cv[j] pass harness lock/unlock callbacks (a foreign lock to nsync) */
 } S;
 
 enum { CV_ACQ = 0, CV_ACQ_SLEPT, CV_TRY_OK, CV_TRY_FAIL, CV_CVWAIT_0, CV_CVWAIT_TO, CV_CVWAIT_CANCEL, CV_MUWAIT_0, CV_MUWAIT_TO, CV_MUWAIT_CANCEL,
-       CV_WAITN_READY, CV_WAITN_TO, CV_WAIT_SLEPT, CV_COND_EVALS, CV_DEBUG_CALLS, CV_NOWAKE, CV_SECTIONS, CV_UNTIMED };
+       CV_WAITN_READY, CV_WAITN_TO, CV_WAIT_SLEPT, CV_COND_EVALS, CV_DEBUG_CALLS, CV_NOWAKE, CV_SECTIONS, CV_UNTIMED, CV_CHURN };
 
 /* ---- oracles ----------------------------------------------------------------------- */
 static void enter (int writer, const char *how) {
@@ -73,6 +75,8 @@ static void enter (int writer, const char *how) {
 		a = S.ca; b = S.cb;
 		if (a != -b) rt_violation ("exclusion-canary", how, "reader via %s saw a torn invariant a=%ld b=%ld", how, a, b);
 	}
+	/* the library's own assertions: they panic (routed to a violation) if the word shows no holder of the right kind */
+	if (writer) nsync_mu_assert_held (&S.mu); else nsync_mu_rassert_held (&S.mu);
 	isr = nsync_mu_is_reader (&S.mu);
 	if (isr != !writer) rt_violation ("mode", how, "%s returned holding the mutex in %s mode, expected %s mode (word=%#x)", how, isr ? "read" : "write", writer ? "write" : "read", sc_word (&S.mu.word));
 }
@@ -253,11 +257,9 @@ static void run_section (int tid, const struct sect *s) {
 	}
 }
 
-static void body (int tid) {
-	const struct prog *p = &S.prog[tid];
+static void epilogue (void) {
 	int i;
-	for (i = 0; i < p->nsect; i++) run_section (tid, &p->s[i]);
-	/* epilogue: make every wait terminate */
+	/* make every wait terminate */
 	RT_OP ("nsync_mu_lock", nsync_mu_lock (&S.mu));
 	enter (1, "nsync_mu_lock");
 	S.final_ = 1;
@@ -266,6 +268,37 @@ static void body (int tid) {
 	RT_OP ("nsync_mu_unlock", nsync_mu_unlock (&S.mu));
 	for (i = 0; i < NCV; i++) RT_OP ("nsync_cv_broadcast", nsync_cv_broadcast (&S.cv[i]));
 	for (i = 0; i < NNOTE; i++) RT_OP ("nsync_note_notify", nsync_note_notify (S.note[i]));
+}
+
+/* thread churn (--param churn=1): the sections of a program are run by a succession of
+   short-lived pthreads, each taking over the worker's slot; every one of them gets its waiter
+   struct from the library's pool and returns it from its thread-exit destructor */
+struct chunk { int tid, from, to, last; };
+static void *chunk_main (void *a) {
+	struct chunk *c = (struct chunk *) a;
+	int i;
+	rt_adopt (c->tid);
+	for (i = c->from; i < c->to; i++) run_section (c->tid, &S.prog[c->tid].s[i]);
+	if (c->last) epilogue ();
+	return (NULL);
+}
+
+static void body (int tid) {
+	const struct prog *p = &S.prog[tid];
+	int i;
+	if (S.churn) {
+		for (i = 0; i < p->nsect; ) {
+			struct chunk c; pthread_t t;
+			c.tid = tid; c.from = i; c.to = i + 1 + (int) rt_rand_n (3); if (c.to > p->nsect) c.to = p->nsect; c.last = (c.to == p->nsect);
+			if (pthread_create (&t, NULL, &chunk_main, &c) != 0) rt_fatal ("pthread_create failed");
+			pthread_join (t, NULL);
+			rt_cover (CV_CHURN);
+			i = c.to;
+		}
+		return;
+	}
+	for (i = 0; i < p->nsect; i++) run_section (tid, &p->s[i]);
+	epilogue ();
 }
 
 /* ---- generation -------------------------------------------------------------------- */
@@ -310,6 +343,7 @@ static int setup (uint64_t seed) {
 	for (i = 0; i < NCV; i++) nsync_cv_init (&S.cv[i]);
 	nsync_mu_init (&S.mu);
 	S.debug_on = (int) rt_param ("debug", 0);
+	S.churn = (int) rt_param ("churn", 0);
 	S.note[0] = nsync_note_new (NULL, nsync_time_no_deadline);
 	S.note[1] = rt_rand_n (2) ? nsync_note_new (NULL, rt_deadline_in (pick_dl ())) : nsync_note_new (S.note[0], nsync_time_no_deadline);
 	S.ctr = nsync_counter_new (1);
@@ -383,7 +417,7 @@ static void pinit (void) {
 	rt_cover_name (CV_MUWAIT_0, "muwait_true"); rt_cover_name (CV_MUWAIT_TO, "muwait_timedout"); rt_cover_name (CV_MUWAIT_CANCEL, "muwait_cancelled");
 	rt_cover_name (CV_WAITN_READY, "waitn_ready"); rt_cover_name (CV_WAITN_TO, "waitn_timedout"); rt_cover_name (CV_WAIT_SLEPT, "waits_that_slept");
 	rt_cover_name (CV_COND_EVALS, "condition_evaluations"); rt_cover_name (CV_DEBUG_CALLS, "debug_calls"); rt_cover_name (CV_NOWAKE, "unlock_without_wakeup");
-	rt_cover_name (CV_SECTIONS, "sections"); rt_cover_name (CV_UNTIMED, "untimed_waits");
+	rt_cover_name (CV_SECTIONS, "sections"); rt_cover_name (CV_UNTIMED, "untimed_waits"); rt_cover_name (CV_CHURN, "short_lived_threads");
 }
 
 rt_scenario rt_scen = { "mu_mix", "C01", 6, &pinit, &setup, &body, &check, &teardown, &describe, NULL, &dump_state, NULL };
